@@ -47,12 +47,16 @@ type Got struct {
 }
 
 func load(file []byte, name string) (g *Got, panicked string) {
+	return loadWith(func() *insts.KernelCodeObject { return insts.LoadKernelCodeObjectFromBytes(file, name) })
+}
+
+func loadWith(loader func() *insts.KernelCodeObject) (g *Got, panicked string) {
 	defer func() {
 		if r := recover(); r != nil {
 			g, panicked = nil, fmt.Sprint(r)
 		}
 	}()
-	co := insts.LoadKernelCodeObjectFromBytes(file, name)
+	co := loader()
 	if co == nil {
 		return nil, "loader returned nil"
 	}
@@ -448,6 +452,7 @@ func main() {
 		return
 	}
 	uploadPass(r)
+	pathPass(r)
 	prints := map[uint64]struct{}{}
 	loads, kernels, files, ambiguous := 0, 0, 0, 0
 	fam := map[string]int{}
